@@ -22,7 +22,7 @@ THEOREMS = ["Pyro.C04.C04_closed", "Pyro.C04.C04_closed_loads", "Pyro.C04.C04_cl
             "Pyro.C04.C04_effects", "Pyro.C04.C04_effects_loads", "Pyro.C04.C04_effects_loadsCall",
             "Pyro.C04.C04_fuel_sufficient",
             "Pyro.C04.C04_gen_tables", "Pyro.C04.C04_gen_all_exceptions", "Pyro.C04.C04_gen_struct",
-            "Pyro.C04.C04_gen_probes", "Pyro.C04.C04_gen_ext_codes"]
+            "Pyro.C04.C04_ext_converted", "Pyro.C04.C04_gen_probes", "Pyro.C04.C04_gen_ext_codes"]
 SUITES = ["serpent", "marshal", "json", "msgpack"]
 RULE = ("payload trees (containers to depth 5, class-tagged dicts at any depth, wrapper chains) drawn from VERIF_SEED; tags: the nine "
         "hard-coded names, every name of vars(Pyro5.errors) / vars(builtins) / vars(sqlite3) bare and behind builtins./exceptions./"
@@ -156,6 +156,16 @@ class Real:
         self.ser_classes = (serializers.SerpentSerializer, serializers.MarshalSerializer, serializers.JsonSerializer,
                             serializers.MsgpackSerializer)
         self.conv_log = []
+        # which msgpack paths run ext_hook at all (probed on the behaviour)
+        self.ext_hook_on = {}
+        for op, fn, pl in (("loads", self.sers["msgpack"].loads, [msgpack.ExtType(0x31, b"77")]),
+                           ("call", self.sers["msgpack"].loadsCall, ["o", "m", [msgpack.ExtType(0x31, b"77")], {}])):
+            try:
+                r = fn(msgpack.packb(pl, use_bin_type=True))
+                v = r[0] if op == "loads" else r[2][0]
+                self.ext_hook_on[op] = type(v) is int and v == 77
+            except Exception:
+                self.ext_hook_on[op] = False
         # warm up every path once so that lazy imports do not show up as audit events of a case
         for n in SERS:
             for p in ([1, {"a": 2}], {"__class__": "Pyro5.core.URI", "state": ["PYRO", "o", None, "h", 1]},
@@ -430,42 +440,45 @@ def ext_site(R, x):
 # ------------------------------------------------------------------------------------------------
 # property oracle pieces (independent of the model)
 # ------------------------------------------------------------------------------------------------
-def foreign_types(R, v, allow_conv, out, seen, depth=0):
+def foreign_types(R, v, allow_conv, out, seen, depth=0, ext_plain=True):
     """collect every type in the decoded value that is neither plain data nor a class of the closed set"""
     if depth > 80 or id(v) in seen:
         return
     t = type(v)
-    if t in (type(None), bool, int, float, complex, str, bytes, bytearray, datetime.datetime, datetime.date,
-             R.msgpack.ExtType, R.msgpack.Timestamp):
+    if t in (type(None), bool, int, float, complex, str, bytes, bytearray, datetime.datetime, datetime.date, R.msgpack.Timestamp):
+        return
+    if t is R.msgpack.ExtType:
+        if not ext_plain:
+            out.append("msgpack.ExtType(code=%d) left undecoded" % v.code)
         return
     seen.add(id(v))
     if t in (list, tuple, set, frozenset):
         for x in v:
-            foreign_types(R, x, allow_conv, out, seen, depth + 1)
+            foreign_types(R, x, allow_conv, out, seen, depth + 1, ext_plain)
     elif t is dict:
         for k, x in v.items():
-            foreign_types(R, k, allow_conv, out, seen, depth + 1)
-            foreign_types(R, x, allow_conv, out, seen, depth + 1)
+            foreign_types(R, k, allow_conv, out, seen, depth + 1, ext_plain)
+            foreign_types(R, x, allow_conv, out, seen, depth + 1, ext_plain)
     elif t is R.core.URI:
         for f in ("protocol", "object", "sockname", "host", "port"):
-            foreign_types(R, getattr(v, f, None), allow_conv, out, seen, depth + 1)
+            foreign_types(R, getattr(v, f, None), allow_conv, out, seen, depth + 1, ext_plain)
     elif t is R.client.Proxy:
         for x in vars(v).values():
-            foreign_types(R, x, allow_conv, out, seen, depth + 1)
+            foreign_types(R, x, allow_conv, out, seen, depth + 1, ext_plain)
     elif t is R.server.Daemon or t in R.ser_classes:
         for x in vars(v).values():
-            foreign_types(R, x, allow_conv, out, seen, depth + 1)
+            foreign_types(R, x, allow_conv, out, seen, depth + 1, ext_plain)
     elif t is R.core._ExceptionWrapper:
-        foreign_types(R, v.exception, allow_conv, out, seen, depth + 1)
+        foreign_types(R, v.exception, allow_conv, out, seen, depth + 1, ext_plain)
     elif t is _Conv and allow_conv:
-        foreign_types(R, v.data, allow_conv, out, seen, depth + 1)
+        foreign_types(R, v.data, allow_conv, out, seen, depth + 1, ext_plain)
     elif isinstance(v, BaseException) and t.__module__ in ("builtins", "Pyro5.errors", "sqlite3", "struct") \
             and getattr(sys.modules.get(t.__module__), t.__qualname__, None) is t:
-        foreign_types(R, v.args, allow_conv, out, seen, depth + 1)
+        foreign_types(R, v.args, allow_conv, out, seen, depth + 1, ext_plain)
         for x in vars(v).values():
-            foreign_types(R, x, allow_conv, out, seen, depth + 1)
+            foreign_types(R, x, allow_conv, out, seen, depth + 1, ext_plain)
         for a in ("__cause__", "__context__"):
-            foreign_types(R, getattr(v, a, None), allow_conv, out, seen, depth + 1)
+            foreign_types(R, getattr(v, a, None), allow_conv, out, seen, depth + 1, ext_plain)
     else:
         out.append(t.__module__ + "." + t.__qualname__)
 
@@ -584,7 +597,9 @@ def run_real(R, ser, op, data, reg):
                 res["canon"] = "ok ?"
                 res["nocompare"] = str(nc)
             ft = []
-            foreign_types(R, r, bool(reg), ft, set())
+            # an undecoded msgpack extension value counts as data only on a path that does not run ext_hook at all; where
+            # ext_hook runs, every extension value is converted or refused (theorem C04_ext_converted)
+            foreign_types(R, r, bool(reg), ft, set(), 0, not (ser == "msgpack" and R.ext_hook_on.get(op, False)))
             res["foreign"] = ft
             res["has_inst"] = any(m in res["canon"] for m in ("[I", ",I", "(I", "=I", "ok I"))
         else:
